@@ -4,6 +4,12 @@ from __future__ import annotations
 
 from ._kxcheck import replay_kx, run_kx
 
+
+def runtime_phase(run, tier, seed, tot):
+    from ..rtsweep import phase
+
+    return phase(run, tier, seed, tot, "C01", usability=False)
+
 ORACLES = ["value"]
 
 
@@ -18,6 +24,7 @@ def run(tier, seed):
              "(0,1,2,3) x every joint stored structure of the operands within the cap; evaluate kernel executed on "
              "the IR abstract machine with every stored value a distinct indeterminate; output decoded from the raw "
              "pos/crd/vals blocks and compared as polynomials with the tensor-algebra reference at every coordinate",
+        extra_phase=runtime_phase,
         assumptions=[
             "values range over the reals: one run per structure with indeterminate values decides the value equation "
             "for all finite values up to floating-point rounding (kernels cannot branch on a stored value - the "
